@@ -164,6 +164,8 @@ SIGS = [
     "(a, b='x')", "(a: int, b: str = 'x') -> int", "(a=1, *args, b=2, **kw)", "(a, /, b='q', *, c=3)", "(\n    a,  # first\n    b='x',\n)", "(a, b=(1, 2), *rest, flag=False, **extra)",
     # return annotations that contain parentheses / an arrow-like default (the header splice looks for ')' and '->')
     "(a, b='x') -> Tuple[()]", "(a, b='->')",
+    # the conversion raises AFTER parsing on the pinned tree (header re-parse fails): the file must come out untouched
+    "(key, default=None) -> \"Mapping[str: int]\"",
 ]
 
 
@@ -251,10 +253,12 @@ def one_case(case):
         ast.parse(src)
     except SyntaxError:
         return None  # the generator produced an invalid combination
-    fd, fn = tempfile.mkstemp(suffix=".py")
-    os.write(fd, src.encode("utf-8"))
-    os.close(fd)
+    tdir = tempfile.mkdtemp(prefix="cddvc_c07_")
+    fn = os.path.join(tdir, "mod.py")
+    with open(fn, "wb") as fh_:
+        fh_.write(src.encode("utf-8"))
     import contextlib
+    import shutil
 
     try:
         err = None
@@ -264,8 +268,11 @@ def one_case(case):
         except BaseException as ex:
             err = "%s: %s" % (type(ex).__name__, str(ex)[:120])
         out = open(fn, encoding="utf-8").read()
+        stray = sorted(set(os.listdir(tdir)) - {"mod.py", "__pycache__"})
     finally:
-        os.unlink(fn)
+        shutil.rmtree(tdir, ignore_errors=True)
+    if stray:
+        return ("stray-file", "doctrans left files it was not asked to write next to the module: %s" % stray)
     if err is not None:
         if out != src:
             return ("not-atomic", "doctrans raised (%s) and left the file changed (%d -> %d bytes)" % (err, len(src), len(out)))
@@ -316,11 +323,24 @@ def main(tier, write_baseline=False):
             r = replay_block.replay(c, o["model"])
             if r and r.get("requires_hold") and (r.get("failed_ensures") or r.get("block_raised")):
                 model_replays[o["name"]] = {"contract": c.qual, "counterexample replayed on the real statements (CPython)": r}
+    frame_refuted = []
     for name, ok, detail in frame_obligations():
         st = UNDECIDED if ok is None else (PROVED if ok else REFUTED)
         run.add("C07/frame/" + name, st, "rule-engine", detail=detail)
         if ok is False:
-            refuted.append(("C07/frame/" + name, detail))
+            frame_refuted.append(("C07/frame/" + name, detail))
+
+    def frame_replay(_name):
+        # the clauses the frame rules carry (file intact when the conversion raises, lines outside headers / docstrings
+        # byte-identical, program unchanged), on the real doctrans over the quick corpus
+        _n, _raised, fl = bounded("quick")
+        for (kind, variant, si), (case, what) in fl.items():
+            if run.match_finding({"kind": kind, "variant": variant, "signature": str(si), "obligation": "C07/bounded/%s" % kind}) is None:
+                return {"case": list(case), "what": what[:400]}
+        return None
+
+    frame_refuted, frame_inputs = run.confirm_or_undecide(frame_refuted, frame_replay, is_rule=lambda n: True)
+    refuted.extend(frame_refuted)
     run.samples = [{"obligation": n, "detail": o["detail"]} for n, o in list(run.obligations.items())[:5]]
     if write_baseline:
         common.write_baseline("C07", [n for n, o in run.obligations.items() if o["status"] == "proved"])
@@ -337,7 +357,7 @@ def main(tier, write_baseline=False):
         })
     for name, detail in refuted:
         cand = next((v for k, v in fails.items() if k[0] in ("not-atomic", "other-lines", "program-changed")), None)
-        fi = model_replays.get(name) or ({"case": list(cand[0]), "what": cand[1]} if cand else None)
+        fi = model_replays.get(name) or frame_inputs.get(name) or ({"case": list(cand[0]), "what": cand[1]} if cand else None)
         run.violation(name, detail, failing_input=fi, solver_output={"rule": detail})
     if not refuted:
         for (kind, variant, si), (case, what) in fails.items():
